@@ -5,18 +5,22 @@
 //
 // ops:
 //
-//	new <mtu> <frag> <reasm> <ifi> <cm> <thr> <seq>
+//	new <mtu> <frag> <reasm> <ifi> <cm> <thr> <seq> <nthreads>
+//	      <nthreads> recording forwarding threads are registered (thread i records index i);
 //	      sender: transport MTU, IsFragmentationEnabled, IsIncomingFaceIndicationEnabled,
 //	      congestion marking on/off with threshold <thr>, nextSequence preset to <seq>;
 //	      receiver: IsReassemblyEnabled = <reasm>                                   => ok
 //	mtu <n>            LinkService.SetMTU(n) on the LIVE sending face (what management faces/update does) => ok
 //	opt <frag> <ifi>   SetOptions on the live sending face (fragmentation, incoming-face indication)   => ok
-//	tx <id> <pkthex> <tokhex|-> <itok> <mark|-> <inface|-> <cong>
+//	tx <id> <pkthex> <tokhex|-> <itok> <mark|-> <inface|-> <cong> <hn> <hp>
+//	      <hn> = fw.HashNameToFwThread(name), <hp> = ascending threads of
+//	      fw.HashNameToAllPrefixFwThreads(name): hash facts of the dispatch rule, computed by the
+//	      generator with the real functions for <nthreads> threads.
 //	      sendPacket(OutPkt{Pkt{Raw, PitToken: itok?, CongestionMark: mark}, PitToken: tok,
 //	      InFace}) with the send queue reported above (cong=1) / below the threshold
 //	      => n=<k> <hex of every frame handed to transport.sendFrame>
 //	rx <id> <i>  hand frame <i> of message <id> to the receiver's handleIncomingFrame
-//	      => ps=<partial messages held> [d=<pkthex>/<tokhex|->/<mark|->] [st=<fnv64>]  (packets queued
+//	      => ps=<partial messages held> [d=<pkthex>/<tokhex|->/<mark|->@<threads>] [st=<fnv64>]  (packets queued
 //	         to the forwarding threads; st = digest of ALL packets delivered so far in this history,
 //	         which the harness retains without copying, rendered again now), "skip" when that frame
 //	         does not exist
@@ -41,7 +45,8 @@ import (
 	"verif/harness/common"
 )
 
-const nThreads = 4
+// maxThreads bounds the number of forwarding threads a history may register (`new ... <nthreads>`).
+const maxThreads = 8
 
 // ---------------------------------------------------------------- recording forwarding threads
 
@@ -63,9 +68,36 @@ func render(p *defn.Pkt) string {
 	return common.Hex(p.Raw) + "/" + common.Hex(p.PitToken) + "/" + mark
 }
 
-func record(p *defn.Pkt) {
-	delivered = append(delivered, "d="+render(p))
-	held = append(held, p)
+// one QueueInterest/QueueData call: which thread got which packet
+type queued struct {
+	thread int
+	pkt    *defn.Pkt
+}
+
+var calls []queued
+
+func record(thread int, p *defn.Pkt) {
+	calls = append(calls, queued{thread, p})
+}
+
+// collect groups the calls of one arrival by packet (the same *defn.Pkt may be queued to several
+// threads) in order of first appearance: "d=<pkt>/<tok>/<mark>@<threads in call order>"; every distinct
+// packet is retained (once) in `held`.
+func collect() {
+	delivered = delivered[:0]
+	var order []*defn.Pkt
+	threads := map[*defn.Pkt][]string{}
+	for _, c := range calls {
+		if _, ok := threads[c.pkt]; !ok {
+			order = append(order, c.pkt)
+		}
+		threads[c.pkt] = append(threads[c.pkt], strconv.Itoa(c.thread))
+	}
+	for _, p := range order {
+		delivered = append(delivered, "d="+render(p)+"@"+strings.Join(threads[p], ","))
+		held = append(held, p)
+	}
+	calls = calls[:0]
 }
 
 func fnvText(h uint64, s string) uint64 {
@@ -86,8 +118,8 @@ func heldDigest() string {
 	return strconv.FormatUint(h, 16)
 }
 func (r *recThread) String() string            { return "rec" + strconv.Itoa(r.id) }
-func (r *recThread) QueueData(p *defn.Pkt)     { record(p) }
-func (r *recThread) QueueInterest(p *defn.Pkt) { record(p) }
+func (r *recThread) QueueData(p *defn.Pkt)     { record(r.id, p) }
+func (r *recThread) QueueInterest(p *defn.Pkt) { record(r.id, p) }
 func (r *recThread) GetNumPitEntries() int     { return 0 }
 func (r *recThread) GetNumCsEntries() int      { return 0 }
 
@@ -103,18 +135,50 @@ type world struct {
 var w *world
 var initDone bool
 
-func setup() {
-	if initDone {
-		return
+// setup registers n recording forwarding threads (thread i records its own index).
+func setup(n int) {
+	if !initDone {
+		initDone = true
+		ndnlog.SetLevel(ndnlog.FatalLevel)
 	}
-	initDone = true
-	ndnlog.SetLevel(ndnlog.FatalLevel)
-	ths := make([]dispatch.FWThread, nThreads)
+	if n < 1 {
+		n = 1
+	}
+	if n > maxThreads {
+		n = maxThreads
+	}
+	ths := make([]dispatch.FWThread, n)
 	for i := range ths {
 		ths[i] = &recThread{i}
 	}
 	dispatch.InitializeFWThreads(ths)
-	fw.Threads = make([]*fw.Thread, nThreads)
+	fw.Threads = make([]*fw.Thread, n)
+}
+
+// hashFacts: the forwarding thread of the name (Interests) and the ascending list of the threads of
+// all its prefixes (token-less Data), computed with the REAL hash functions for n threads.  They are
+// environment facts of the dispatch rule (the name hash is C01's business), carried on the tx line.
+func hashFacts(wire []byte, n int) (int, string) {
+	setup(n)
+	l3, _, err := spec.ReadPacket(enc.NewBufferReader(append([]byte(nil), wire...)))
+	if err != nil {
+		return 0, "0"
+	}
+	var name enc.Name
+	if l3.Interest != nil {
+		name = l3.Interest.NameV
+	} else if l3.Data != nil {
+		name = l3.Data.NameV
+	} else {
+		return 0, "0"
+	}
+	var hp []string
+	for i, m := range fw.HashNameToAllPrefixFwThreads(name) {
+		if m {
+			hp = append(hp, strconv.Itoa(i))
+		}
+	}
+	return fw.HashNameToFwThread(name), strings.Join(hp, ",")
 }
 
 func b01(s string) bool { return s == "1" }
@@ -131,12 +195,13 @@ func exec(op string) string {
 	f := common.Fields(op)
 	switch f[0] {
 	case "new":
-		setup()
 		w = nil
 		held = nil
-		if len(f) != 8 {
+		calls = calls[:0]
+		if len(f) != 9 {
 			return "bad-op"
 		}
+		setup(common.Atoi(f[8]))
 		nw := &world{frames: map[string][][]byte{}}
 		nw.stx = face.VerifNewTransport(common.Atoi(f[1]), defn.NonLocal)
 		nw.rtx = face.VerifNewTransport(defn.MaxNDNPacketSize, defn.NonLocal)
@@ -157,7 +222,7 @@ func exec(op string) string {
 		w = nw
 		return "ok"
 	case "tx":
-		if w == nil || len(f) != 8 {
+		if w == nil || len(f) != 10 {
 			return "skip"
 		}
 		wire := common.UnHex(f[2])
@@ -215,8 +280,9 @@ func exec(op string) string {
 		if !ok || i < 0 || i >= len(fr) {
 			return "skip"
 		}
-		delivered = delivered[:0]
+		calls = calls[:0]
 		face.VerifHandleIncomingFrame(w.rcv, fr[i])
+		collect()
 		out := "ps=" + strconv.Itoa(face.VerifPartialMessages(w.rcv))
 		for _, d := range delivered {
 			out += " " + d
@@ -324,7 +390,9 @@ func gen(g *common.Gen) {
 		default:
 			seq = r.U64()
 		}
-		g.Op("new %d %d %d %d %d %d %d", mtu, frag, reasm, ifi, cm, thr, seq)
+		nth := common.Pick(r, []int{1, 1, 2, 3, 4, 4, 8})
+		g.Op("new %d %d %d %d %d %d %d %d", mtu, frag, reasm, ifi, cm, thr, seq, nth)
+		g.Stat("threads-" + strconv.Itoa(nth))
 		g.Stat("mtu-" + mtuClass(mtu))
 
 		nmsg := r.Range(1, 3)
@@ -377,7 +445,7 @@ func gen(g *common.Gen) {
 			case 3, 4, 5, 6:
 				tokLen = 6
 				b := r.Bytes(6)
-				b[0], b[1] = 0, byte(r.Intn(nThreads))
+				b[0], b[1] = 0, byte(r.Intn(nth))
 				tok = common.Hex(b)
 			default:
 				tokLen = common.Pick(r, []int{1, 2, 4, 5, 7, 8, 16, 31, 32})
@@ -443,7 +511,11 @@ func gen(g *common.Gen) {
 			kind := 5 + r.Intn(2)
 			pkt := sized(kind, size, r)
 			id := "m" + strconv.Itoa(m)
-			g.Op("tx %s %s %s %d %s %s %d", id, common.Hex(pkt), tok, r.Intn(2), mark, inface, cong)
+			hn, hp := hashFacts(pkt, nth)
+			g.Op("tx %s %s %s %d %s %s %d %d %s", id, common.Hex(pkt), tok, r.Intn(2), mark, inface, cong, hn, hp)
+			if kind == 6 && tokLen != 6 && strings.Contains(hp, ",") {
+				g.Stat("data-to-several-threads")
+			}
 			g.Stat("tx")
 			if tok != "-" {
 				g.Stat("tx-token")
